@@ -128,6 +128,14 @@ def run_single(s):
         p.observe(_handler, s, remove=True)
         p.observe(_handler, [s, "b"])
         p.observe(_handler, [s, "b"], remove=True)
+    except BaseException:   # noqa: B902
+        pass
+    try:
+        # mixed lists: mini-language text and expression objects, in both orders
+        p.observe(_handler, [s, expression.trait("b"), expression.trait("c")])
+        p.observe(_handler, [s, expression.trait("b"), expression.trait("c")], remove=True)
+        p.observe(_handler, [expression.trait("b"), s, "c"])
+        p.observe(_handler, [expression.trait("b"), s, "c"], remove=True)
     except BaseException:   # noqa: B902  (a missing trait etc.: the graphs were still handed out)
         pass
     used = outcome(s)[0]
